@@ -75,6 +75,12 @@ def verlet_case(c):
     atoms = build(c)
     ctx = HamiltonianDisplacementContext(atoms, np.random.default_rng(1))
     v = Verlet(dt=c["dt"], max_steps=c["n"])
+    if c.get("warm"):
+        # the same integrator object is first used on ANOTHER system of the same size (other masses, other anchors)
+        other = build(c)
+        other.set_masses(fh(c["masses"])[::-1] * 3.5 + 1.0)
+        other.positions += 0.05
+        v.integrate(HamiltonianDisplacementContext(other, np.random.default_rng(2)))
     out = {"dt_internal": float(v.dt).hex(), "H0": atoms.get_total_energy()}
     v.integrate(ctx)
     out["q1"], out["p1"], out["H1"] = hx(atoms.positions), hx(atoms.get_momenta()), atoms.get_total_energy()
@@ -87,6 +93,10 @@ def verlet_case(c):
         a = build(c)
         cx = HamiltonianDisplacementContext(a, np.random.default_rng(1))
         vv = Verlet(dt=c["dt"] / div, max_steps=1)
+        if c.get("warm"):
+            other = build(c)
+            other.set_masses(fh(c["masses"])[::-1] * 3.5 + 1.0)
+            vv.integrate(HamiltonianDisplacementContext(other, np.random.default_rng(2)))
         h0 = a.get_total_energy()
         worst = 0.0
         hs = []
